@@ -111,6 +111,53 @@ def main():
         for f, key in futs.items():
             results[key] = f.result()
 
+    # ---- assist pass: an obligation of a function whose text CHANGED and that is not discharged (failed, or resource
+    # limit) gets a second attempt with proof assistance that cannot make a false statement provable: early returns
+    # restructured (R24), commutativity of the modular operations broadcast, eight times the resource limit.  A verdict
+    # "verified" from either attempt is a proof.  (Front-end errors and lost anchors are not retried.)
+    if not os.environ.get("VERIF_NO_ASSIST"):
+        base_a = load_baseline()
+        for n, u in us.items():
+            r = results[(n, False)]
+            if r.meta is None:
+                continue
+            bad = {}
+            for mod, mm in r.meta["modules"].items():
+                if mm.get("mode") != "verify" or mod == "lemmas":
+                    continue
+                for fm in mm["fns"]:
+                    v = r.fns.get((mod, fm["fn"]))
+                    if not v or v["status"] not in ("failed", "undecided") or fm.get("variant"):
+                        continue
+                    if any(e.get("kind") == "other" for e in v.get("errors", [])):
+                        continue
+                    b = base_a.get(obl_key(n, mm, fm))
+                    if b is not None and fm.get("sha256") and b.get("sha256") != fm.get("sha256"):
+                        bad[(mod, fm["fn"])] = fm.get("display", fm["fn"])
+            if not bad:
+                continue
+            u.assist = set(bad.values())
+            name0 = u.name
+            try:
+                u.name = name0 + "__assist"
+                r2 = vverus.run_unit(u, False, 3)
+            finally:
+                u.name = name0
+                u.assist = set()
+            if r2.meta is None:
+                continue
+            for (mod, fn), disp in bad.items():
+                for mod2, mm2 in r2.meta["modules"].items():
+                    if mm2.get("mode") != "verify":
+                        continue
+                    for fm2 in mm2["fns"]:
+                        if fm2["fn"] == fn and mm2.get("header") == r.meta["modules"][mod].get("header") and mm2.get("file") == r.meta["modules"][mod].get("file"):
+                            v2 = r2.fns.get((mod2, fn))
+                            if v2 and v2["status"] == "verified":
+                                v2 = dict(v2)
+                                v2["assisted"] = True
+                                r.fns[(mod, fn)] = v2
+
     # extra engines (kani harnesses, compute lemma files ...) registered for the property
     extra_obls = []
     extra_assumptions = []
